@@ -74,9 +74,77 @@ def expected(first, last, Hl, F, Fa, pf, S, Sa, ps, styles=(True, True, True, Tr
     return top, bottom
 
 
+def border_writer_roles(pm):
+    """the helper of PageFeatureProcessor that writes a border into the page attributes, recognised by ROLE: it calls
+    <BroadcastValue>.update_cell(row, column, style).  Returns (FuncInfo, roles) with roles = parameter name of
+    'attrs' / 'row' / 'col' (None when the helper loops over all columns of the row) / 'side' / 'style' (one style, or one style per
+    column when col is None) / 'shape'; None when no such helper or its roles cannot be read off"""
+    for f in pm.iter_funcs():
+        if f.cls != "PageFeatureProcessor":
+            continue
+        upd = [c for c in walk_no_nested(f.node) if isinstance(c, ast.Call) and isinstance(c.func, ast.Attribute) and c.func.attr == "update_cell" and len(c.args) == 3]
+        if len(upd) != 1:
+            continue
+        params = _required(f)
+        asg = assignments(f.node)
+
+        def param_of(e):
+            return e.id if isinstance(e, ast.Name) and e.id in params else None
+
+        def loop_source(e):
+            """(parameter iterated with enumerate, position in the target) when e is a loop variable of `for i, x in enumerate(P)`"""
+            if not isinstance(e, ast.Name):
+                return None
+            for lp in walk_no_nested(f.node):
+                if isinstance(lp, ast.For) and isinstance(lp.target, (ast.Tuple, ast.List)) and len(lp.target.elts) == 2 and isinstance(lp.iter, ast.Call) \
+                        and dotted(lp.iter.func) == "enumerate" and lp.iter.args and param_of(lp.iter.args[0]):
+                    for k, t in enumerate(lp.target.elts):
+                        if isinstance(t, ast.Name) and t.id == e.id:
+                            return param_of(lp.iter.args[0]), k
+            return None
+        r_, c_, s_ = upd[0].args
+        roles = {"row": param_of(r_), "col": param_of(c_), "style": param_of(s_)}
+        if roles["style"] is None and roles["col"] is None:
+            cs, ss = loop_source(c_), loop_source(s_)
+            if cs and ss and cs[0] == ss[0] and (cs[1], ss[1]) == (0, 1):
+                roles["style"] = ss[0]                      # one style per column: every column of the row is written
+        side = None
+        for j in ast.walk(f.node):
+            if isinstance(j, ast.JoinedStr) and any(isinstance(x, ast.Constant) and "border_" in str(x.value) for x in j.values):
+                for x in j.values:
+                    if isinstance(x, ast.FormattedValue) and param_of(x.value):
+                        side = param_of(x.value)
+        roles["side"] = side
+        cons = [c for c in walk_no_nested(f.node) if isinstance(c, ast.Call) and dotted(c.func).split(".")[-1] == "BroadcastValue"]
+        dim = next((k.value for c in cons for k in c.keywords if k.arg == "dimension"), None)
+        roles["shape"] = param_of(dim) if dim is not None else None
+        rest = [p_ for p_ in params if p_ not in roles.values()]
+        roles["attrs"] = rest[0] if len(rest) == 1 else (params[0] if params and params[0] not in roles.values() else None)
+        if None in (roles["row"], roles["side"], roles["style"], roles["attrs"]):
+            continue
+        roles["params"] = params
+        _ = asg
+        return f, roles
+    return None
+
+
+def _style_terms(x) -> list[str]:
+    """the style term(s) an argument stands for: a single style, or a per-column list `[style] * width` / `[style, ...]`"""
+    if isinstance(x, (list, tuple)):
+        return [str(y) for y in x] or ["?empty"]
+    m = re.fullmatch(r"\[\s*'(.*)'\s*\] \* .*", str(x))
+    return [m.group(1)] if m else [str(x)]
+
+
 def r07_1(ctx: Ctx) -> None:
     pm = ctx.pm
     fi = pm.func(FN)
+    got_w = border_writer_roles(pm)
+    if got_w is None:
+        ctx.gap("R07.1", "the helper that writes one border edge (…update_cell(row, column, style) on the expanded border_<side>) could not be re-identified by role")
+        return
+    writer, roles = got_w
+    wname = writer.short.split(".")[-1]
     fixed = {
         # '' (no border) is a valid value of the four tier styles: their emptiness is enumerated
         "bool(document.rtf_page.border_first)": [True, False], "bool(document.rtf_page.border_last)": [True, False],
@@ -95,7 +163,7 @@ def r07_1(ctx: Ctx) -> None:
         "page.is_first_page": [True, False], "page.is_last_page": [True, False],
         "document.rtf_page.page_footnote": PL, "document.rtf_page.page_source": PL,
     }
-    dt = DT(pm, atoms=fixed, effect_calls={"_apply_border_to_cell"},
+    dt = DT(pm, atoms=fixed, effect_calls={wname},
             classes={"document": "RTFDocument", "page": "PageContext", "self": "PageFeatureProcessor",
                      "document.rtf_body": "RTFBody", "document.rtf_page": "RTFPage", "document.rtf_footnote": "RTFFootnote",
                      "document.rtf_source": "RTFSource", "page.table_attrs": "TableAttributes"},
@@ -113,6 +181,7 @@ def r07_1(ctx: Ctx) -> None:
     def b(v, key, default=None):
         return v.get(key, default)
     classes: dict[tuple, list] = {}
+    unbound = 0
     n_cfg = 0
     seen_cfg = set()
     unknown_atoms = set()
@@ -135,10 +204,14 @@ def r07_1(ctx: Ctx) -> None:
         # effects -> normalised (target, side, style source)
         got_top, got_bottom = set(), set()
         for e in run.effects:
-            if e[0] == "call" and e[1] == "_apply_border_to_cell":
-                a = e[3]
-                row, side, style = row_of(a[1]), str(a[3]), style_src(a[4])
-                (got_top if side == "top" else got_bottom).add((row, side, style))
+            if e[0] == "call" and e[1] == wname:
+                bound = {**dict(zip(roles["params"], e[3])), **e[4]}
+                if not all(roles[k] in bound for k in ("row", "side", "style")):
+                    unbound += 1
+                    continue
+                row, side = row_of(bound[roles["row"]]), str(bound[roles["side"]])
+                for st_ in _style_terms(bound[roles["style"]]):
+                    (got_top if side == "top" else got_bottom).add((row, side, style_src(st_)))
             elif e[0] == "store" and e[1] == "page.component_borders":
                 tgt = e[2].strip("[]")
                 got_bottom.add((tgt, "bottom", style_src(e[3])))
@@ -168,6 +241,10 @@ def r07_1(ctx: Ctx) -> None:
                 key = ("bottom", tuple(sorted(ebot)), tuple(sorted(got_bottom)), f"last={last}")
                 classes.setdefault(key, []).append(cfg)
     ctx.extra["configurations"] = n_cfg
+    n_writes = sum(1 for _v, run in rows for e in run.effects if e[0] == "call" and e[1] == wname)
+    if unbound or not n_writes:
+        ctx.gap("R07.1", f"the calls of the border writer {wname} could not be read ({unbound} call(s) whose arguments do not bind its row / side / style parameters, {n_writes} call(s) in the table)")
+        return
     ctx.instance("R07.1", fi.where(), f"decision table of {FN}: {len(rows)} leaves over {len(dt.discovered)} atoms, projected to {n_cfg} configurations of "
                  "(first,last,header,footnote{text,as_table,placement},source{…}); compared with the three-tier oracle")
     for k in sorted(unknown_atoms):
@@ -528,10 +605,12 @@ def r07_4(ctx: Ctx) -> None:
     kinds = set()
     desc = []
     asg = assignments(fi.node)
+    _w = border_writer_roles(pm)
+    writer_name = _w[0].short.split(".")[-1] if _w else "_apply_border_to_cell"
 
     def origins(e, seen=()):
         """expressions a returned value starts from: follow names through their assignments, and the cell writer through its first argument"""
-        if isinstance(e, ast.Call) and dotted(e.func).split(".")[-1] == "_apply_border_to_cell" and e.args:
+        if isinstance(e, ast.Call) and dotted(e.func).split(".")[-1] == writer_name and e.args:
             return origins(e.args[0], seen)
         if isinstance(e, ast.Name) and e.id in asg:
             if e.id in seen or len(seen) > 12:
@@ -562,38 +641,51 @@ def r07_4(ctx: Ctx) -> None:
     elif kinds != {"deep"}:
         ctx.gap("R07.4", f"where the per-page attributes of {FN} come from could not be re-identified ({sorted(set(desc))[:3]})")
     # ---- (b) one edge = expand the attribute to the page shape, update exactly (row, col), store back
-    ap = pm.func("PageFeatureProcessor._apply_border_to_cell")
-    ps = _required(ap)
-    if len(ps) != 6:
-        ctx.gap("R07.4", "_apply_border_to_cell no longer takes (attrs, row, col, side, style, shape)")
+    got_w = border_writer_roles(pm)
+    if got_w is None:
+        ctx.gap("R07.4", "the helper that writes one border edge (…update_cell(row, column, style) on the expanded border_<side>) could not be re-identified by role")
     else:
+        from .c06 import loop_of
+        ap, roles = got_w
+        ps = roles["params"]
+        A, R, C, SD, ST, SH = (roles[k] for k in ("attrs", "row", "col", "side", "style", "shape"))
         bad: dict[str, str] = {}
         n = 0
         for side in ("top", "bottom"):
             dt = _flow(pm, classes={"self": "PageFeatureProcessor"}, effect_calls={"update_cell"}, relevant=("<none>",), regime=True, max_atoms=10)
             args = {"self": Sym("self", "PageFeatureProcessor"), **{p: Sym(p) for p in ps}}
-            args[ps[3]] = side
-            rows = _table(ctx, "R07.4", dt, ap, args, "_apply_border_to_cell")
+            args[SD] = side
+            rows = _table(ctx, "R07.4", dt, ap, args, ap.short)
             if rows is None:
                 break
             for v, r in rows:
                 n += 1
                 cons = [(i + 1, e) for i, e in enumerate(r.effects) if e[0] == "construct" and e[1] == "BroadcastValue"]
-                upd = [e for e in r.effects if e[0] == "call" and e[1] == "update_cell"]
-                st = [e for e in r.effects if e[0] == "store" and e[1] == ps[0]]
+                upd = [(i + 1, e) for i, e in enumerate(r.effects) if e[0] == "call" and e[1] == "update_cell"]
+                st = [e for e in r.effects if e[0] == "store" and e[1] == A]
                 if len(cons) != 1 or len(upd) != 1:
-                    ctx.gap("R07.4", f"_apply_border_to_cell: the expansion / single-cell update could not be re-identified ({len(cons)} BroadcastValue, {len(upd)} update_cell)")
+                    ctx.gap("R07.4", f"{ap.short}: the expansion / single-cell update could not be re-identified ({len(cons)} BroadcastValue, {len(upd)} update_cell)")
                     continue
                 k, c = cons[0]
-                if str(c[2].get("value")) != f"{ps[0]}.border_{side}" or str(c[2].get("dimension")) != ps[5]:
-                    bad.setdefault("cell update source", f"side {side}: the matrix is built from ({c[2].get('value')}, {c[2].get('dimension')}), expected ({ps[0]}.border_{side}, {ps[5]})")
-                if tuple(str(x) for x in upd[0][3]) != (ps[1], ps[2], ps[4]) or not upd[0][2].startswith("BroadcastValue(…)#%d" % k):
-                    bad.setdefault("cell update", f"side {side}: update_cell{tuple(upd[0][3])} on `{upd[0][2]}`, expected exactly ({ps[1]}, {ps[2]}, {ps[4]}) on the expanded matrix")
+                ku, u = upd[0]
+                if str(c[2].get("value")) != f"{A}.border_{side}" or (SH is not None and str(c[2].get("dimension")) != SH):
+                    bad.setdefault("cell update source", f"side {side}: the matrix is built from ({c[2].get('value')}, {c[2].get('dimension')}), expected ({A}.border_{side}, {SH})")
+                if C is not None:
+                    want = (R, C, ST)
+                else:
+                    lp = loop_of(r.effects, ku)                    # every column of the row: generic iteration over the per-column styles
+                    want = (R, lp, f"{ST}[{lp}]") if lp is not None else None
+                    if lp is None:
+                        ctx.gap("R07.4", f"{ap.short}: the per-column update is not inside a loop over the styles of the row")
+                        continue
+                if tuple(str(x) for x in u[3]) != want or not u[2].startswith("BroadcastValue(…)#%d" % k):
+                    bad.setdefault("cell update", f"side {side}: update_cell{tuple(u[3])} on `{u[2]}`, expected exactly {want} on the expanded matrix")
                 if not any(e[2] == f"border_{side}" and str(e[3]).startswith("BroadcastValue(…)#%d" % k) for e in st):
-                    bad.setdefault("cell update not stored", f"side {side}: the updated matrix is not stored back into {ps[0]}.border_{side} (stores: {[(e[2], e[3]) for e in st]})")
-                if isinstance(r.ret, Sym) and r.ret.path != ps[0]:
+                    bad.setdefault("cell update not stored", f"side {side}: the updated matrix is not stored back into {A}.border_{side} (stores: {[(e[2], e[3]) for e in st]})")
+                if isinstance(r.ret, Sym) and r.ret.path != A:
                     bad.setdefault("cell update result", f"side {side}: returns `{r.ret.path}`, expected the updated attributes")
-        ctx.instance("R07.4", ap.where(), f"_apply_border_to_cell evaluated for top/bottom ({n} paths): expand border_<side> to the page shape, update one cell, store back: {len(bad)} disagreement(s)")
+        ctx.instance("R07.4", ap.where(), f"{ap.short} (roles {{{', '.join(f'{k}: {roles[k]}' for k in ('attrs', 'row', 'col', 'side', 'style', 'shape'))}}}) evaluated for top/bottom ({n} paths): expand border_<side> to the page "
+                     f"shape, update {'one cell' if C is not None else 'the cells of one row (generic iteration over the columns)'}, store back: {len(bad)} disagreement(s)")
         for k, msg in sorted(bad.items()):
             ctx.violation("R07.4", ap.short, "cell update", ap.where(), "a single edge is no longer written by expanding the attribute to the page shape and updating exactly (row, col): " + msg)
     # ---- (c) update_cell over symbolic (row, column, value): the matrix becomes the expansion self.to_list() and exactly the element
@@ -634,6 +726,8 @@ def r07_4(ctx: Ctx) -> None:
     allowed = {FN, "PageFeatureProcessor._apply_border_to_cell", "PageRenderer._render_column_headers", "RTFEncodingService.encode_footnote",
                "RTFEncodingService.encode_source", "RTFBody._set_border_defaults", "UnifiedRTFEncoder._encode_multi_section",
                "RTFEncodingService.prepare_dataframe_for_body_encoding"}
+    if _w:
+        allowed.add(_w[0].short)
     for f2 in pm.iter_funcs():
         for a in walk_no_nested(f2.node):
             if isinstance(a, ast.Assign):
